@@ -40,9 +40,9 @@ impl<'a> Cur<'a> {
 }
 
 const ALPH_MB: &[&str] = &[
-  "a", "é", "日", "😀", ";", "\n", "{", " ", "b", "\n", "}", "ß", "\u{2028}", "x\r", "\t", "fn", "\u{feff}", "»", "们", "\u{8a}", "⊻", "\u{a0}", "ý", "\n",
+  "a", "é", "日", "😀", ";", "\n", "{", " ", "b", "\n", "}", "ß", "\u{2028}", "x\r", "\t", "fn", "\u{feff}", "»", "们", "\u{8a}", "⊻", "\u{a0}", "ý", "\n", "\n\x0b", "\x0c", ":",
 ];
-const ALPH_ASCII: &[&str] = &["a", "b", "c", " ", ";", "{", "}", "\n", "\n", "xy", "\t", "fn", "\r", "a", "\n"];
+const ALPH_ASCII: &[&str] = &["a", "b", "c", " ", ";", "{", "}", "\n", "\n", "xy", "\t", "fn", "\r", "a", "\n", "\n\x0b", "\x0b", "\x0c", "*", "J", ":", "\n"];
 
 pub fn text(c: &mut Cur, max: usize) -> String {
   let n = c.below(max + 1);
@@ -277,7 +277,7 @@ pub fn program(data: &[u8]) -> (crate::props::c18::Program, Vec<u8>) {
   let threads = (0..nthreads)
     .map(|_| {
       (0..1 + c.below(3))
-        .map(|_| match c.below(13) {
+        .map(|_| match c.below(14) {
           0 | 1 => Op::Source,
           2 => Op::Size,
           3 | 4 => Op::Map(c.u8() % 2 == 0),
@@ -286,11 +286,12 @@ pub fn program(data: &[u8]) -> (crate::props::c18::Program, Vec<u8>) {
           9 => Op::CloneSource,
           10 => Op::CloneMap(c.u8() % 2 == 0),
           11 => Op::EqTwin,
-          _ => Op::EqShared(c.u8() % 2 == 0),
+          12 => Op::EqShared(c.u8() % 2 == 0),
+          _ => Op::EqNear(c.u8() % 2 == 0),
         })
         .collect()
     })
     .collect();
   let schedule: Vec<u8> = data.get(c.pos..).unwrap_or(&[]).iter().take(48).map(|b| b % 3).collect();
-  (Program { tree, threads, warm: None }, schedule)
+  (Program { tree, threads, warm: None, near: c.u16() }, schedule)
 }
